@@ -87,7 +87,16 @@ func (p engineProp) InputType() string      { return "EngineRun.input" }
 func (p engineProp) ObsType() string        { return "EngineRun.obs" }
 func (p engineProp) Rule() string           { return p.rule }
 func (p engineProp) Exhaustive(string) bool { return false }
-func (p engineProp) Generate(r *Rand, tier string) []Case { return p.gen(r, tier) }
+func (p engineProp) Generate(r *Rand, tier string) []Case {
+	cases := p.gen(r, tier)
+	for _, f := range extraStreams[p.id] {
+		cases = append(cases, f(r, tier)...)
+	}
+	return cases
+}
+
+// extraStreams: further dedicated streams of an engine property, registered from their own files (r4_*.go) in init().
+var extraStreams = map[string][]func(r *Rand, tier string) []Case{}
 
 func (p engineProp) Observe(raw json.RawMessage) (Observed, error) {
 	var in engIn
